@@ -159,6 +159,11 @@ def run(model, col, tier):
             continue
         sh = [c for c in calls_on_path(evs) if last_attr(c) == "ShuffleInstruction"]
         if not sh:
+            # a swizzle is lowered by a shuffle on every path: a shortcut that stores / loads the value as it is ignores the
+            # order of the mask letters (`v.zyx = e` is not `v = e`)
+            col.bad("R04.2", f"{LOWER}::v_MemberAccessExpression every swizzle path shuffles",
+                    f"a returning path for a swizzle ({'store' if atoms.get(f'{cx42}.InAssignment') is True else 'load'}, under {[(k[:50], v) for k, v in atoms.items() if 'isSwizzle' not in k][:3]}) "
+                    "builds no ShuffleInstruction: the components are taken in storage order instead of mask order", LOWER, vma)
             continue
         c = sh[0]
         args = [_rt42(a, env42) for a in c.args]
